@@ -99,6 +99,17 @@ def parseData (j : Json) : Except String Data := do
         pure ((← p[0]!.getStr?), (← parseCell p[1]!))
     pure { name := t, cols := cs, rows := rows }
 
+/-- columns of the file before a use whose values are found under another name (or not at all) after it:
+`[table, column, new name | null]` (`logTrack`) -/
+def movedJson (before : Option RStore) (log : Log) : Json :=
+  match before with
+  | none => Json.arr #[]
+  | some b =>
+    Json.arr ((b.data.flatMap fun T => T.cols.filterMap fun c =>
+      match logTrack T.name log c with
+      | some c' => if c' = c then none else some (Json.arr #[Json.str T.name, Json.str c, Json.str c'])
+      | none => some (Json.arr #[Json.str T.name, Json.str c, Json.null])).toArray)
+
 def parseRFile (j : Json) : Except String (Option RStore) :=
   match j with
   | .null => pure none
@@ -162,7 +173,7 @@ def handleC19 (j : Json) : Except String Json := do
           let r := interruptedR Generated.table s n
           pure (some r.1, Json.mkObj [("log", jsonOfLog r.2), ("tables", jsonOfData r.1.data),
             ("schema", jsonOfSchema (schemaOf r.1.data)), ("rev", jsonOfRev r.1.rev),
-            ("wf", Json.bool (wfData r.1.data))])
+            ("moved", movedJson (some s) r.2), ("wf", Json.bool (wfData r.1.data))])
         | none => throw "crash needs an existing file"
       | .error _ => pure (file, Json.null)
     let out := (allHistories depth).map fun h =>
@@ -178,6 +189,7 @@ def handleC19 (j : Json) : Except String Json := do
         Json.mkObj [("path", pathString h), ("log", jsonOfLog log), ("schema", jsonOfSchema (schemaOf st.data)),
                     ("rev", jsonOfRev st.rev), ("same", Json.bool same),
                     ("tables", if same then Json.null else jsonOfData st.data),
+                    ("moved", movedJson before log),
                     ("wf", Json.bool (wfData st.data))]
       | none => Json.null
     pure (Json.mkObj [("nodes", Json.arr out.toArray), ("crash", crashJ),
